@@ -166,6 +166,10 @@ def examine_pipeline(case, out: Outcome, *, backends=("polars", "sqlite"), ref_c
         return run
     except RefReject as ex:
         out.discard = f"ref-reject:{ex.kind}"
+        if sql is not None and sql.error is not None and exc_name(sql.error[1]) == ex.kind:
+            # the library rejects the pipeline with the exception type the reference expects: agreement
+            out.failures = [f for f in out.failures if not (f.kind == "internal-error" and f.key.startswith("sqlite:"))]
+            out.count("rejected_like_reference:" + ex.kind)
         _close(run)
         return run
 
